@@ -6,7 +6,7 @@ ID = "C15"
 PROPS_FILE = "theories/Props/C15.v"
 ENTRIES = ["entry_relabel", "entry_neighbors", "entry_colors", "entry_euler", "entry_acc",
            "entry_check_euler", "entry_check_neighbors", "entry_check_colors", "entry_check_relabel",
-           "entry_check_acc"]
+           "entry_check_acc", "entry_reduce"]
 EXTRACT = ("theories/Extract/XC15.v", "c15", ENTRIES)
 PYX = {"_cpmorphology2.pyx": ["_all_connected_components"]}
 RULE = ("label images: shapes skewed to 1x1, 1xN, Nx1, 2x2, 3x3 and up to 12x12 (thorough 16x16); contents from random "
@@ -30,11 +30,12 @@ TRUSTED = ["modelled, not verified: NumPy/SciPy array semantics used by the Pyth
            "every integer dtype incl. labels at the dtype maximum",
            "the stack array stack_v[0..stack_ptr) of _all_connected_components is modelled as a list; uint32 "
            "UNDEFINED = -1 is modelled as an absent map entry; the C arrays are PositiveMap-backed",
-           "euler = components - holes: Full for the quad counts (quad_counts_spec), for the local change under "
-           "deletion of a pixel and for every image reducible by simple/isolated deletions (euler_reducible, value "
-           "4k); equality with components - holes is Finite (exhaustive small images) and otherwise conditional "
-           "on C05's simple_removal_topo (Partial); the executable flood-fill definition euler_spec is evaluated on "
-           "every generated case",
+           "euler = components - holes: Full (C15_euler_reducible_topological, importing C05's simple_removal_topo / "
+           "topo_counts) for every image that reduces to the empty image by deletions of simple pixels and isolated "
+           "points, simple fillings and closing of one-pixel holes; membership in that class is certified per case by "
+           "the extracted, verified search reduce_label (evidence: euler_certified_reducible / euler_not_certified); the "
+           "global lemma that every finite image is so reducible is not proved (Partial); Finite sweeps cover all "
+           "small images; the executable flood-fill definition euler_spec is evaluated on every generated case too",
            "the spanning-forest certificate for all_connected_components is computed by the Python harness but only "
            "verified by the extracted Spec.LabelGraph.acc_cert_ok (soundness proved), so it is not trusted"]
 ASSUMPTIONS = ["labels are non-negative integers; label images are rectangular and non-empty",
@@ -487,6 +488,9 @@ def _forest_certificate(i, j, lab):
     return par, eidx, dep, rep
 
 
+REDUCE_MAX_PIXELS = 400
+
+
 def check(ctx, cases, outs):
     res = [None] * len(cases)
     items = []
@@ -533,6 +537,29 @@ def check(ctx, cases, outs):
     for k, e, _ in items:
         if r[k] != 1:
             res[k] = msg[e]
+    # certificate search (Spec.EulerReduceC15.reduce_label, sound by C15_reduce_label_certifies): when it returns k,
+    # 4 W must be 4 k = 4 (components - holes) by theorem, not only by the flood-fill definition
+    red = []
+    for k, (c, o) in enumerate(zip(cases, outs)):
+        if c["fn"] != "euler" or _bad(o) or o.get("w4") is None or res[k]:
+            continue
+        img, idx = _euler_args(c)
+        if len(img) * len(img[0]) > REDUCE_MAX_PIXELS:
+            ctx.count("euler_reduce_skipped_large")
+            continue
+        for pos, l in enumerate(idx):
+            if l != 0 and l not in idx[:pos]:
+                red.append(((k, pos), "entry_reduce", [img, l]))
+    rr = _run_grouped(ctx, red)
+    for (k, pos), _, _ in red:
+        v = rr[(k, pos)]
+        if isinstance(v, list) and len(v) == 1:
+            ctx.count("euler_certified_reducible")
+            if outs[k]["w4"][pos] != 4 * v[0] and not res[k]:
+                res[k] = ("euler_number differs from 4*(components - holes) = %d certified by a Reduces2 reduction "
+                          "(C15_reduce_label_certifies), label position %d" % (4 * v[0], pos))
+        else:
+            ctx.count("euler_not_certified")
     return res
 
 
@@ -659,8 +686,10 @@ MANIFEST = {
         "symmetrise/lexsort/bincount/cumsum; relabel is an order-preserving renumbering onto 1..n; find_neighbors lists "
         "for each label exactly the other labels with an 8-adjacent pixel, strictly increasing, and symmetrically; "
         "color_labels gives one colour per label, background 0 and different colours to touching labels; "
-        "euler_number's shifted-plane arithmetic equals the bit-quad counts of the label's pixel set. Finite: "
-        "bit-quad count = 8-components - holes on all small images (exhaustive kernel evaluation). The model is tied "
+        "euler_number's shifted-plane arithmetic equals the bit-quad counts of the label's pixel set, and 4W = "
+        "4(components - holes), counted declaratively in the plane with C05's imported topology theorems, for every "
+        "image reducible by simple deletions/fillings, isolated-point deletions and one-pixel-hole closings (a "
+        "verified search certifies this per generated case). The model is tied "
         "to the code by exact comparison of complete outputs on every generated case (extracted OCaml, sub-sample "
         "re-evaluated by vm_compute), and the executable flood-fill specification (components, holes, adjacency, "
         "partition, proper colouring) is evaluated on the implementation's own output of every case."),
